@@ -23,6 +23,7 @@ class Loopback:
         self.requests = []
         self.runner = None
         self.port = None
+        self.drop_next = 0        # number of coming requests to read and then drop without answering
 
     async def __aenter__(self):
         async def handler(request):
@@ -30,6 +31,10 @@ class Loopback:
             self.requests.append({"method": request.method, "raw_path": request.raw_path,
                                   "headers": {k: v for k, v in request.headers.items()}, "body": body,
                                   "received_ms": int(round(time.time() * 1000))})
+            if self.drop_next > 0:
+                self.drop_next -= 1
+                request.transport.close()        # the server went away after reading the request
+                return web.Response()
             if request.path.endswith("/openOrders") or request.path.endswith("/myTrades") or \
                     "/open_orders/" in request.path or "/account_balances/" == request.path[-18:]:
                 return web.json_response([])
@@ -371,3 +376,34 @@ def check_params(c, req, exchange):
     if c.get("path") and path != c["path"]:
         out.append(("wire:wrong-endpoint", f"expected {c['path']}, got {path}"))
     return out
+
+
+async def run_dropped(rnd, which):
+    """an authenticated request that the server reads and then drops without answering, on a session that already served
+    a request (keep-alive connection); returns every request the server received, and the client-side error"""
+    import aiohttp
+    from basana.external.binance import client as bclient
+    from basana.external.bitstamp import client as sclient
+    async with Loopback() as lb:
+        async with aiohttp.ClientSession() as session:
+            if which == "bitstamp":
+                api = sclient.APIClient(api_key=KEY, api_secret=SECRET, session=session, config_overrides=overrides(lb))
+                first = lambda: api.get_account_balances()                                        # noqa
+                second = lambda: api.create_limit_order("buy", "btcusd", gen_decimal(rnd), gen_decimal(rnd))   # noqa
+            else:
+                api = bclient.APIClient(api_key=KEY, api_secret=SECRET, session=session, config_overrides=overrides(lb))
+                first = lambda: api.spot_account.get_open_orders("BTCUSDT")                       # noqa
+                second = lambda: api.spot_account.create_order("BTCUSDT", "BUY", "MARKET", quantity=gen_decimal(rnd))   # noqa
+            err = None
+            await first()
+            lb.drop_next = 1
+            try:
+                await second()
+            except Exception as e:      # noqa
+                err = repr(e)
+            lb.drop_next = 0
+            try:
+                await first()
+            except Exception as e:      # noqa
+                err = (err or "") + " / then: " + repr(e)
+            return list(lb.requests), err
